@@ -24,7 +24,8 @@ RULE = ('graphs: every DAG containing exposure->outcome on 2..5 labelled nodes (
         'tier draws more orders per graph), each as several programs: add_arrow per arrow, '
         'add_arrows in 1-3 batches, add_from_networkx (optionally after arrows that must be forgotten), with node '
         'and arrow order shuffled, model node numbers permuted and string labels drawn at random; random DAGs on '
-        '6-8 nodes at three densities; a malformed stream (arrow closing a cycle, self-loop on old/new node, '
+        '6-8 nodes at three densities; ten classical d-separation structures (collider with descendants, three-parent '
+        'collider, nested colliders, butterfly, long M, ...) on 6-8 nodes perturbed by random extra arrows; a malformed stream (arrow closing a cycle, self-loop on old/new node, '
         'batch closing a cycle through a new node, cyclic networkx graph, networkx graph without exposure/outcome) '
         'interleaved with valid calls. distinct = distinct (labelled program); non-trivial = some candidate set '
         'is admissible and some is not, or the program contains a rejected call')
@@ -398,6 +399,37 @@ def random_dag(rng, n, p):
     return edges
 
 
+# classical d-separation structures (roles: 0 = exposure, 1 = outcome, 2.. = others; 0 -> 1 is always present).
+# Random dense graphs almost never isolate these mechanisms on 6+ nodes, so they are seeded explicitly and then
+# perturbed with a few extra arrows.
+TEMPLATES = {
+    'collider_descendant': [(2, 0), (2, 4), (3, 4), (3, 1), (4, 5)],
+    'collider_descendant_chain': [(2, 0), (2, 4), (3, 4), (3, 1), (4, 5), (5, 6)],
+    'three_parent_collider': [(2, 0), (2, 5), (3, 5), (4, 5), (4, 1)],
+    'nested_colliders': [(2, 0), (2, 5), (3, 5), (3, 6), (4, 6), (4, 1)],
+    'butterfly': [(2, 0), (2, 4), (3, 4), (3, 1), (4, 0), (4, 1)],
+    'long_m': [(2, 0), (2, 4), (3, 4), (3, 5), (5, 1)],
+    'collider_two_descendants': [(2, 0), (2, 4), (3, 4), (3, 1), (4, 5), (4, 6)],
+    'mediator_confounded': [(0, 2), (2, 1), (3, 2), (3, 1), (4, 0), (4, 3)],
+    'instrument_and_collider': [(2, 0), (3, 0), (3, 4), (5, 4), (5, 1), (4, 6)],
+    'descendant_of_parent_collider': [(2, 0), (2, 3), (4, 3), (4, 1), (3, 5), (6, 5), (6, 1)],
+}
+
+
+def template_dag(rng):
+    name = sorted(TEMPLATES)[int(rng.integers(len(TEMPLATES)))]
+    edges = [(0, 1)] + list(TEMPLATES[name])
+    n = max(max(e) for e in edges) + 1 + int(rng.integers(0, 2))
+    n = min(n, 8)
+    q = float(rng.choice([0.0, 0.05, 0.12]))
+    pairs = [(a, b) for a in range(n) for b in range(n) if a != b]
+    for i in rng.permutation(len(pairs)).tolist():
+        a, b = pairs[i]
+        if rng.random() < q and (a, b) not in edges and (b, a) not in edges and not has_cycle(edges + [(a, b)]):
+            edges.append((a, b))
+    return name, n, edges
+
+
 def malformed_program(rng, nodes, edges, x, y):
     """a valid construction interleaved with calls that must be rejected"""
     es = shuffled(rng, edges)
@@ -493,6 +525,15 @@ def run(chk, drv, rng, tier):
         kind, prog = progs[int(rng.integers(len(progs)))] if not thorough else (None, None)
         for kind, prog in (progs if thorough else [(kind, prog)]):
             check_program(chk, drv, lab, x, y, prog, 'rand_' + kind, stats)
+    # seeded d-separation structures on 6-8 nodes with a few random extra arrows
+    ntem = 6000 if thorough else 1500
+    for i in range(ntem):
+        name, n, edges = template_dag(rng)
+        lab, x, y, nodes, es = relabel(rng, list(range(n)), edges)
+        progs = programs_for(rng, nodes, es, x, y, modes)
+        for kind, prog in (progs if thorough else [progs[int(rng.integers(len(progs)))]]):
+            check_program(chk, drv, lab, x, y, prog, 'tmpl_' + kind, stats)
+        chk.count('template_' + name)
     # malformed stream
     nmal = 8000 if thorough else 1500
     for i in range(nmal):
